@@ -531,4 +531,36 @@ def c02_grouped_same_name():
         problems.append(f"the reference codec cannot decode the stream: {type(e).__name__}: {e}")
     return {"violates": bool(problems), "detail": problems[:3]}
 
-CALLS = {"c02_descriptor_alias": c02_descriptor_alias, "c02_grouped_same_name": c02_grouped_same_name, "c02_nested_stream": c02_nested_stream, "c02_value_form": c02_value_form, "c02_concat": c02_concat, "c02_ignoring": c02_ignoring, "c02_registry_keeps": c02_registry_keeps, "c02_bare_name_latest": c02_bare_name_latest, "c02_refused_then_written": c02_refused_then_written, "c02_history_sweep": c02_history_sweep, "c02_golden": c02_golden, "c02_make_golden": c02_make_golden, "c02_reference_sweep": c02_reference_sweep, "c02_reference_decode": c02_reference_decode, "c02_reference_encode": c02_reference_encode, "c02_compat": c02_compat}
+
+def c02_struct_decode(kw=False):
+    """a conforming stream (written by the independent reference encoder is not needed here: the implementation's own writer is checked elsewhere) holding
+    structured values, decoded by the implementation into both record class templates"""
+    import io
+
+    import msgpack
+
+    from flow.record import RecordDescriptor
+    from flow.record.stream import RecordStreamReader
+    import struct
+
+    fields = [("path", "from"), ("digest", "class"), ("command", "import"), ("path[]", "in"), ("net.ipaddress", "is"), ("varint", "n")] if kw else [("path", "p"), ("digest", "d"), ("command", "c"), ("path[]", "pl"), ("net.ipaddress", "a"), ("varint", "n")]
+    name = "c02/struct"
+    h = W.descriptor_hash(name, fields)
+    ext = lambda sub, payload: msgpack.ExtType(14, msgpack.packb((sub, payload), use_bin_type=True))
+    ts = ext(0x10, (2023, 4, 5, 6, 7, 8, 999))
+    md5 = bytes.fromhex("d41d8cd98f00b204e9800998ecf8427e")
+    vals = [["/a/b", 0], [md5, None, None], [["ls", ["-l"]], 0], [["c:\\x", 1]], 5, 7, None, None, ts, 1]
+    frames = [msgpack.packb(b"RECORDSTREAM\n", use_bin_type=True), msgpack.packb(ext(2, (name, [list(f) for f in fields])), use_bin_type=True), msgpack.packb(ext(1, ((name, h), vals)), use_bin_type=True)]
+    data = b"".join(struct.pack(">I", len(f)) + f for f in frames)
+    try:
+        recs = list(RecordStreamReader(io.BytesIO(data)))
+        r = recs[0]
+        kinds = [type(getattr(r, f)).__name__ for _, f in fields]
+        elem = [type(e).__name__ for e in getattr(r, fields[3][1])]
+        ok = kinds[0] == "posix_path" and kinds[1] == "digest" and kinds[2] == "posix_command" and kinds[4] == "ipaddress" and elem == ["windows_path"] and getattr(r, fields[1][1]).md5 == md5.hex()
+        detail = f"kinds {kinds}, list elements {elem}"
+    except Exception as e:
+        ok, detail = False, f"reading a conforming stream raised {type(e).__name__}: {e}"
+    return {"violates": not ok, "detail": detail}
+
+CALLS = {"c02_struct_decode": c02_struct_decode, "c02_descriptor_alias": c02_descriptor_alias, "c02_grouped_same_name": c02_grouped_same_name, "c02_nested_stream": c02_nested_stream, "c02_value_form": c02_value_form, "c02_concat": c02_concat, "c02_ignoring": c02_ignoring, "c02_registry_keeps": c02_registry_keeps, "c02_bare_name_latest": c02_bare_name_latest, "c02_refused_then_written": c02_refused_then_written, "c02_history_sweep": c02_history_sweep, "c02_golden": c02_golden, "c02_make_golden": c02_make_golden, "c02_reference_sweep": c02_reference_sweep, "c02_reference_decode": c02_reference_decode, "c02_reference_encode": c02_reference_encode, "c02_compat": c02_compat}
